@@ -29,6 +29,10 @@ package lexer
 // L(f, needM, needE, startZero, afterSep, startOK): the complete label set of an unbound state function
 //@ pred L(f stateFn, nm bool, ne bool, sz bool, as bool, so bool) := needM(f) == nm && needE(f) == ne && startZero(f) == sz && afterSep(f) == as && startOK(f) == so
 
+// Owned: what the lexer writes to is what it already wrote to, or memory allocated since (the
+// metric/event being built, its tag buffer); the input line stays where it is.
+//@ pred Owned(l *Lexer, m0 *gostatsd.Metric, e0 *gostatsd.Event, tags0 int, in0 int) := (l.m == m0 || fresh(l.m)) && (l.e == e0 || fresh(l.e)) && (base(l.tags) == tags0 || base(l.tags) == 0 || fresh(base(l.tags))) && base(l.input) == in0
+
 //@ pred Done(l *Lexer) := l.err == nil ==> l.m != nil || l.e != nil
 
 //@ functype stateFn(l)
@@ -37,6 +41,7 @@ package lexer
 //@   ensures  result != nil ==> StateReq(result, l)
 //@   ensures  result == nil ==> Done(l)
 //@   ensures  l.MetricPool == old(l.MetricPool)
+//@   ensures  Owned(l, old(l.m), old(l.e), old(base(l.tags)), old(base(l.input)))
 //@   modifies l.*, l.input[*], l.m.*, l.e.*, l.tags[*]
 
 //@ functype uintHandler(l, value) sig func(*Lexer, uint64) stateFn
@@ -45,6 +50,7 @@ package lexer
 //@   ensures  result != nil ==> StateReq(result, l)
 //@   ensures  result == nil ==> Done(l)
 //@   ensures  l.MetricPool == old(l.MetricPool)
+//@   ensures  Owned(l, old(l.m), old(l.e), old(base(l.tags)), old(base(l.input)))
 //@   modifies l.*, l.input[*], l.m.*, l.e.*, l.tags[*]
 
 //@ func (*Lexer).next
@@ -54,13 +60,21 @@ package lexer
 //@   ensures  old(l.pos) <  l.len ==> result == old(l.input[l.pos]) && l.pos == old(l.pos)+1
 //@   modifies l.pos
 
+// Run parses one line. It writes only to the lexer's own fields, to the bytes of the line it was
+// given (in-place name normalisation) and to memory allocated during the call: whatever was
+// produced from earlier lines, and every other part of the datagram buffer, is left alone (C05).
+// What it returns is newly allocated (or comes unshared from the pool).
 //@ func (*Lexer).Run
 //@   requires l != nil && l.MetricPool != nil && len(input) < 4294967296
 //@   ensures  l.MetricPool == old(l.MetricPool)
 //@   ensures  result2 == nil ==> result0 != nil || result1 != nil
+//@   ensures  [fresh] result0 == nil || fresh(result0)
+//@   ensures  [fresh] result1 == nil || fresh(result1)
+//@   ensures  [fresh] result0 != nil && result2 == nil ==> base(result0.Tags) == 0 || fresh(base(result0.Tags))
+//@   ensures  [fresh] result1 != nil && result0 == nil && result2 == nil ==> base(result1.Tags) == 0 || fresh(base(result1.Tags))
 //@   loop 1 invariant LexInv(l) && (state != nil ==> StateReq(state, l)) && (state == nil ==> Done(l)) && l.MetricPool == old(l.MetricPool)
-//@   modifies everything
-//@   preserves statsd.DatagramParser, pool.MetricPool
+//@   loop 1 invariant (l.m == nil || fresh(l.m)) && (l.e == nil || fresh(l.e)) && (base(l.tags) == 0 || fresh(base(l.tags))) && base(l.input) == base(input)
+//@   modifies l.*, input[*]
 
 //@ func lexSpecial
 //@   label L(self, false, false, true, false, false) && !isBound(self)
